@@ -170,7 +170,7 @@ func Run(e *core.Env) {
 			}
 			steps = append(steps, fmt.Sprintf("w%d:page", w.id))
 		case 1: // burst
-			n := tape.Pick(t, l+".burst", 2, 5, 15, 16, 17, 40)
+			n := tape.Pick(t, l+".burst", 2, 5, 15, 16, 17, 40, 10, 240, 250, 255)
 			for k := 0; k < n && nextID < target; k++ {
 				if !appendPage(w, fmt.Sprintf("%s.b%d", l, k)) {
 					return
